@@ -134,6 +134,24 @@ CHECKS["C08"] = (
     "DESIGN.md §3 C08",
 )
 
+CHECKS["C11"] = (
+    "model_checking",
+    "explicit-state search over update/evaluate histories on real model graphs with state hashing, differential oracle against a fresh rebuild",
+    "On 14 model graphs (11 generated by torchtree-cli and committed as JSON fixtures: unrooted GTR+W4+I with "
+    "gamma-Dirichlet prior, strict/ucln/horseshoe clocks, skygrid+GMRF, skyride, skyglide, exponential, BDSK, "
+    "SRD06 with views, MG94, HMC and ADVI set-ups; 3 hand-written ones with views, concatenations and "
+    "transforms that hold parameters) every history over the alphabet {assign each base parameter (2 values), "
+    "assign through every invertible derived parameter, in-place change + notification, operator "
+    "step+accept / step+reject, draws by distributions, objective evaluation, evaluate one model, evaluate "
+    "all} is executed on a freshly built graph up to depth 2 (full alphabet; thorough 3) and depth 3 (reduced "
+    "alphabet; thorough 4); after each history every observable (all callable models, derived parameters, "
+    "node heights, branch lengths, site/clock rates) is compared with a graph rebuilt from the current base "
+    "values; states are merged on a key of every flag, scalar and cached tensor reachable from the registry. "
+    "A run fails if a registered model/parameter class is neither in a graph nor in the stated exclusion list.",
+    "4-taxon graphs; histories that leave the parameter domain or change a parameter's shape are not judged.",
+    "DESIGN.md §3 C11",
+)
+
 NOT_APPLICABLE = {}
 
 PENDING_REASON = ("check not built yet in this revision (planned in DESIGN.md §3); "
